@@ -392,6 +392,17 @@ func (Spec) MakeInterest(name enc.Name, config *ndn.InterestConfig, appParam enc
 		// duration to unsigned would encode a lifetime of hundreds of millions of years
 		return nil, ndn.ErrInvalidValue{Item: "Interest.Lifetime", Value: *config.Lifetime}
 	}
+	if appParam == nil {
+		// A ParametersSha256DigestComponent vouches for an ApplicationParameters element:
+		// checkInterest refuses an Interest that has the component but no parameters, and
+		// the encoder would drop the component when it is the last one. Such a name cannot
+		// be expressed without parameters.
+		for _, c := range name {
+			if c.Typ == enc.TypeParametersSha256DigestComponent {
+				return nil, ndn.ErrInvalidValue{Item: "Interest.Name", Value: name}
+			}
+		}
+	}
 	forwardingHint := (*Links)(nil)
 	if config.ForwardingHint != nil {
 		forwardingHint = &Links{
